@@ -678,6 +678,9 @@ func (b *Builder) FPCmp(op string, x, y *Term) *Term {
 }
 func (b *Builder) FPIsNaN(x *Term) *Term { return b.mk("fp.isNaN", "", 0, Bool, x) }
 
+// FPPred: a unary IEEE classification predicate (fp.isZero, fp.isNegative, fp.isInfinite ...).
+func (b *Builder) FPPred(op string, x *Term) *Term { return b.mk(op, "", 0, Bool, x) }
+
 // FPFromBits reinterprets an IEEE bit pattern.
 func (b *Builder) FPFromBits(x *Term, s *Sort) *Term {
 	if x.Op == "var" {
